@@ -24,7 +24,7 @@ Import ListNotations.
    append; ResolveAnchorIds: appended inline / warning, Sphinx: pending_xref around the moved children).  For
    both back ends, every configuration, oracle behaviour and token forest of the static grammar. *)
 Theorem C03_single_occurrence : forall B C OR ts,
-  static_forest ts = true ->
+  static_forest B C OR ts = true ->
   (forall doc ws, render_doc B C OR ts = Good (doc, ws) -> NoDup (oids doc)) /\
   (forall doc ws, render_xform B C OR ts = Good (doc, ws) -> NoDup (oids doc)).
 Proof. exact single_occurrence. Qed.
@@ -32,7 +32,7 @@ Print Assumptions C03_single_occurrence.
 
 (* sections occur only directly under the document or another section, and start with a title *)
 Theorem C03_sections_ok : forall B C OR ts doc ws,
-  static_forest ts = true -> render_doc B C OR ts = Good (doc, ws) -> sections_ok [] doc = true.
+  static_forest B C OR ts = true -> render_doc B C OR ts = Good (doc, ws) -> sections_ok [] doc = true.
 Proof. exact sections_ok_render. Qed.
 Print Assumptions C03_sections_ok.
 
@@ -49,7 +49,7 @@ Print Assumptions C03_transitions_ok_refuted.
 (* ... guarded version: when thematic breaks occur at the top level only (hr_top: a token is a thematic
    break itself or contains none), every transition is directly under the document or a section *)
 Theorem C03_transitions_ok_partial : forall B C OR ts doc ws,
-  static_forest ts = true -> forallb hr_top ts = true ->
+  static_forest B C OR ts = true -> forallb hr_top ts = true ->
   render_doc B C OR ts = Good (doc, ws) -> transitions_ok [] doc = true.
 Proof. exact transitions_ok_guarded. Qed.
 Print Assumptions C03_transitions_ok_partial.
@@ -58,7 +58,7 @@ Print Assumptions C03_transitions_ok_partial.
    (tshape: in every table token each body row has as many cells as the header row - what markdown-it
    delivers; tested on every token tree of the correspondence) *)
 Theorem C03_rows_match_cols : forall B C OR ts doc ws,
-  static_forest ts = true -> forallb tshape ts = true ->
+  static_forest B C OR ts = true -> forallb tshape ts = true ->
   render_doc B C OR ts = Good (doc, ws) -> rows_ok doc = true.
 Proof. exact rows_match_cols. Qed.
 Print Assumptions C03_rows_match_cols.
@@ -79,7 +79,7 @@ Print Assumptions C03_ids_unique_partial.
    (open finding ids:duplicate:target+target) *)
 Theorem C03_ids_unique_refuted :
   exists (ts : list tok) doc ws,
-    static_forest ts = true /\
+    static_forest Sphinx sphinx_cfg dummy_oracles ts = true /\
     render_doc Sphinx sphinx_cfg dummy_oracles ts = Good (doc, ws) /\ ids_unique doc = false.
 Proof. exact ids_unique_refuted. Qed.
 Print Assumptions C03_ids_unique_refuted.
@@ -91,7 +91,7 @@ Example C03_example :
   let ts := [tok_heading 1 [tok_text [97]]; tok_heading 1 [tok_text [98]];
              Tok k_table [] [] [] [] [] [] (Some (3, 5)) [Tok k_thead [] [] [] [] [] [] (Some (3, 4)) [row]];
              mk_tok k_hr []] in
-  static_forest ts = true /\ forallb hr_top ts = true /\ forallb tshape ts = true /\
+  static_forest Docutils default_cfg dummy_oracles ts = true /\ forallb hr_top ts = true /\ forallb tshape ts = true /\
   match render_doc Docutils default_cfg dummy_oracles ts with
   | Good (doc, _) => sections_ok [] doc = true /\ transitions_ok [] doc = true /\ rows_ok doc = true
   | Bad _ => False
